@@ -13,7 +13,8 @@ Byte strings are `List Nat` (every element < 256; Go strings/[]byte are bytes).
   `encCodec` is `obj.Interface()` + json.Marshal, `encMarshal` is the `MarshalJSON`
   methods, `decDoc` is json.Unmarshal into `interface{}` + `object.FromGoType`.
 * gzip: an abstract pair of functions (compress/gzip is trusted); see Props.
-* glue: `project`/`inject` for the converters used by the wrappers, `wrap` for a wrapper.
+* glue: `project`/`inject` for the converters used by the wrappers, `wrap` for a wrapper
+  (arity check, converters, the exported function's own tests `Sig.pre`, the Go call).
 * sessions: several calls whose results are kept; Spec = immutable values (`runSpec`), Impl =
   references into a heap of buffers with the code's allocation policy (`runImpl fresh`).
 -/
@@ -319,6 +320,41 @@ def sanitize (s : Bytes) : Bytes := sanitizeF s.length s
 
 def validUtf8 (s : Bytes) : Bool := sanitize s == s
 
+/-! ## three argument conventions outside the strings module, as repaired, and what they were
+
+These wrappers are hand-written Go (object/byte_slice.go, modules/math/math.go); their agreement
+with the Go library is established by correspondence.  The part of each that a defect was
+recorded against is modelled here — the behaviour of the code as it is now, and, clearly named
+`…PreFix`, what it was before the repair (statements in Props: `C19_fixed_*`). -/
+
+/-- `bytes.contains_rune` / `bytes.index_rune` and the `byte_slice` methods: the argument must be
+    exactly ONE well-formed UTF-8 sequence (`r, size := utf8.DecodeRuneInString(s)`; refused when
+    `size == 0 || size != len(s) || (r == utf8.RuneError && size == 1)`) -/
+def runeArgOK (s : Bytes) : Bool := s != [] && runeWidth s == s.length
+
+/-- HISTORICAL (before "fix: bytes.contains_rune and bytes.index_rune accept a multi-byte
+    character"): the test was `len(s) != 1` in BYTES, the rune `rune(s[0])` -/
+def runeArgOKPreFix (s : Bytes) : Bool := s.length == 1
+
+/-- `math.abs` of a float, on its IEEE-754 bits (< 2^64): `math.Abs` clears the sign bit -/
+def absBits (b : Nat) : Nat := b % 2 ^ 63
+
+/-- HISTORICAL (before "fix: math.abs(-0.0) returns +0.0"): `if v < 0 { v *= -1 }` — the
+    comparison is false for -0.0 and for every NaN, which therefore kept their sign bit -/
+def absBitsPreFix (b : Nat) : Nat :=
+  if 2 ^ 63 < b ∧ b ≤ 2 ^ 63 + 0x7FF0000000000000 then b - 2 ^ 63 else b
+
+/-- `math.pow10` of an int: the exponent handed to `math.Pow10` is the int itself -/
+def pow10Exp (i : Int) : Int := i
+
+/-- HISTORICAL (before "fix: math.pow10 passes an int argument to math.Pow10 unchanged"):
+    `int(float64(i))` — rounded to binary64 and converted back; on amd64 a float that is not below
+    2^63 converts to MinInt64 -/
+def pow10ExpPreFix (i : Int) : Int :=
+  match f64IntVal (f64OfInt i) with
+  | some j => if j ≤ 2 ^ 63 - 1 then j else -(2 ^ 63)
+  | none => -(2 ^ 63)
+
 /-! ## script values and the JSON document model -/
 
 mutual
@@ -537,14 +573,25 @@ inductive GoVal where
   | bytes (s : Bytes)
   deriving Repr, DecidableEq
 
+/-- a test the exported function makes on its (converted) parameters BEFORE it calls the Go
+    function; when one fires the function returns an error value and the Go function is not
+    called.  `neg i`: `pᵢ < 0`;  `lenMulOverflows i j`: `len(pᵢ) > 0 && pⱼ > math.MaxInt/len(pᵢ)`
+    (the product `len(pᵢ)·pⱼ` does not fit an `int`). -/
+inductive Check where
+  | neg (i : Nat)
+  | lenMulOverflows (i j : Nat)
+  deriving Repr, DecidableEq
+
 /-- one generated wrapper: exported name, Go function it calls (with the order in which the
-    parameters are passed on), converters of the arguments, constructor of the result -/
+    parameters are passed on), converters of the arguments, constructor of the result, and the
+    tests the exported function makes before the call (`pre`, in source order) -/
 structure Sig where
   name : String
   go : String
   args : List Conv
   pass : List Nat
   res : Inj
+  pre : List Check
   deriving Repr, DecidableEq
 
 def Vals.toStrs : Vals → Option (List Bytes)
@@ -592,6 +639,7 @@ inductive Out where
   | val (v : Val)
   | argsErr
   | typeErr
+  | err
   | panic
 
 /-- a Go library function: `none` models a Go panic -/
@@ -605,38 +653,65 @@ def outOf : Option GoVal → Out
 /-- the values handed to the Go function, in the order the exported function passes them on -/
 def passed (sig : Sig) (gs : List GoVal) : List GoVal := sig.pass.map fun i => gs.getD i (.bool false)
 
+/-- does the test fire on the converted parameters `gs` (as written in the Go source:
+    integer division, `math.MaxInt` = 2^63-1) -/
+def Check.fires : Check → List GoVal → Bool
+  | .neg i, gs =>
+    match gs.getD i (.bool false) with
+    | .int n => decide (n < 0)
+    | _ => false
+  | .lenMulOverflows i j, gs =>
+    match gs.getD i (.bool false), gs.getD j (.bool false) with
+    | .str s, .int n => decide (0 < s.length) && decide (maxInt64 / (s.length : Int) < n)
+    | _, _ => false
+
+/-- the exported function returns an error value without calling the Go function -/
+def refuses (sig : Sig) (gs : List GoVal) : Bool := sig.pre.any (·.fires gs)
+
+/-- the exported function behind a generated wrapper, on converted parameters: its tests, then
+    the Go function (`result, resultErr := inner(…); if resultErr != nil { return NewError }`) -/
+def callInner (sig : Sig) (f : GoFun) (gs : List GoVal) : Out :=
+  if refuses sig gs then .err else outOf (f (passed sig gs))
+
 /-- a generated wrapper around `f` -/
 def wrap (sig : Sig) (f : GoFun) (args : List Val) : Out :=
   if args.length ≠ sig.args.length then .argsErr
   else match projectAll sig.args args with
     | none => .typeErr
-    | some gs => outOf (f (passed sig gs))
+    | some gs => callInner sig f gs
 
 /-- the wrappers of modules/strings (hand-written twin of the regenerated inventory) -/
 def stringsSigs : List Sig := [
-  ⟨"contains", "strings.Contains", [.str, .str], [0, 1], .bool⟩,
-  ⟨"has_prefix", "strings.HasPrefix", [.str, .str], [0, 1], .bool⟩,
-  ⟨"has_suffix", "strings.HasSuffix", [.str, .str], [0, 1], .bool⟩,
-  ⟨"count", "strings.Count", [.str, .str], [0, 1], .int⟩,
-  ⟨"compare", "strings.Compare", [.str, .str], [0, 1], .int⟩,
-  ⟨"repeat", "strings.Repeat", [.str, .int], [0, 1], .str⟩,
-  ⟨"join", "strings.Join", [.strList, .str], [0, 1], .str⟩,
-  ⟨"split", "strings.Split", [.str, .str], [0, 1], .strList⟩,
-  ⟨"fields", "strings.Fields", [.str], [0], .strList⟩,
-  ⟨"index", "strings.Index", [.str, .str], [0, 1], .int⟩,
-  ⟨"last_index", "strings.LastIndex", [.str, .str], [0, 1], .int⟩,
-  ⟨"replace_all", "strings.ReplaceAll", [.str, .str, .str], [0, 1, 2], .str⟩,
-  ⟨"to_lower", "strings.ToLower", [.str], [0], .str⟩,
-  ⟨"to_upper", "strings.ToUpper", [.str], [0], .str⟩,
-  ⟨"trim", "strings.Trim", [.str, .str], [0, 1], .str⟩,
-  ⟨"trim_prefix", "strings.TrimPrefix", [.str, .str], [0, 1], .str⟩,
-  ⟨"trim_suffix", "strings.TrimSuffix", [.str, .str], [0, 1], .str⟩,
-  ⟨"trim_space", "strings.TrimSpace", [.str], [0], .str⟩ ]
+  ⟨"contains", "strings.Contains", [.str, .str], [0, 1], .bool, []⟩,
+  ⟨"has_prefix", "strings.HasPrefix", [.str, .str], [0, 1], .bool, []⟩,
+  ⟨"has_suffix", "strings.HasSuffix", [.str, .str], [0, 1], .bool, []⟩,
+  ⟨"count", "strings.Count", [.str, .str], [0, 1], .int, []⟩,
+  ⟨"compare", "strings.Compare", [.str, .str], [0, 1], .int, []⟩,
+  ⟨"repeat", "strings.Repeat", [.str, .int], [0, 1], .str, [.neg 1, .lenMulOverflows 0 1]⟩,
+  ⟨"join", "strings.Join", [.strList, .str], [0, 1], .str, []⟩,
+  ⟨"split", "strings.Split", [.str, .str], [0, 1], .strList, []⟩,
+  ⟨"fields", "strings.Fields", [.str], [0], .strList, []⟩,
+  ⟨"index", "strings.Index", [.str, .str], [0, 1], .int, []⟩,
+  ⟨"last_index", "strings.LastIndex", [.str, .str], [0, 1], .int, []⟩,
+  ⟨"replace_all", "strings.ReplaceAll", [.str, .str, .str], [0, 1, 2], .str, []⟩,
+  ⟨"to_lower", "strings.ToLower", [.str], [0], .str, []⟩,
+  ⟨"to_upper", "strings.ToUpper", [.str], [0], .str, []⟩,
+  ⟨"trim", "strings.Trim", [.str, .str], [0, 1], .str, []⟩,
+  ⟨"trim_prefix", "strings.TrimPrefix", [.str, .str], [0, 1], .str, []⟩,
+  ⟨"trim_suffix", "strings.TrimSuffix", [.str, .str], [0, 1], .str, []⟩,
+  ⟨"trim_space", "strings.TrimSpace", [.str], [0], .str, []⟩ ]
 
 def findSig (name : String) : Option Sig := stringsSigs.find? (·.name == name)
 
+/-- HISTORICAL (before "fix: strings.repeat, bytes.repeat and byte_slice.repeat return an error
+    …"): the inventory as it was — `repeat` made no test of its own and handed any count to
+    `strings.Repeat`.  Kept so that the repaired defect stays a checked statement
+    (`C19_fixed_repeat_panicked` in Props). -/
+def preFixStringsSigs : List Sig := stringsSigs.map fun sig => { sig with pre := [] }
+
 /-- the arguments on which Go's `strings.Repeat` panics (negative count, or a result length
-    that overflows `int`); no other function of the inventory panics -/
+    that overflows `int`); no other function of the inventory panics.  (A Go panic is no longer
+    reachable through the wrapper: `repeat` tests exactly this domain first — `Sig.pre`.) -/
 def goPanics (go : String) (gs : List GoVal) : Bool :=
   match go, gs with
   | "strings.Repeat", [.str s, .int n] => n < 0 || (maxInt64 < (s.length : Int) * n)
@@ -829,7 +904,7 @@ def wrapObjs (m : BufRead) (sig : Sig) (f : GoFun) (refs : List Nat) (h : Objs) 
   if refs.length ≠ sig.args.length then (.argsErr, h)
   else match convRefs m sig.args refs h with
     | (none, h') => (.typeErr, h')
-    | (some gs, h') => (outOf (f (passed sig gs)), h')
+    | (some gs, h') => (callInner sig f gs, h')
 
 /-- one use of argument objects: a wrapper, the Go function behind it, the objects it is given -/
 structure Use where
